@@ -184,7 +184,7 @@ Bounded(w2, h2) ==
   /\ \A a \in Accts(w2) : \A t \in DOMAIN w2.acct[a].ctr : w2.acct[a].ctr[t] <= MaxCtr
   /\ \A a \in Accts(w2) : \A k \in DOMAIN w2.acct[a].esdt : Len(w2.acct[a].esdt[k].meta.uris) <= 2
 
-DirectNames == {"P04_FlagTakesEffect", "P01_DeliveryNominal", "P16_Price", "P10_RoundTrip", "P10_Accepted", "P11_ShapeVerdict", "P01_FailKeeps", "P02_Others", "P02_NoOverdraft", "P03_Authority", "P04_Immobile", "P04_NoCreditWhilePaused", "P04_FlagOnly",
+DirectNames == {"P03_Denied", "P02_FreshNonce", "P04_FlagTakesEffect", "P01_DeliveryNominal", "P16_Price", "P10_RoundTrip", "P10_Accepted", "P11_ShapeVerdict", "P01_FailKeeps", "P02_Others", "P02_NoOverdraft", "P03_Authority", "P04_Immobile", "P04_NoCreditWhilePaused", "P04_FlagOnly",
                 "P05_Protected", "P05_KVExact", "P05_Frame", "P06_NoGasCreated", "P07_ReturnedNonce", "P07_CtrOnlyByCreate", "P08_Create",
                 "P08_OnlyUriAttr", "P08_WrongHash", "P09_Admissible", "P09_Rejected"}
 StepPred(name, wp, e, w2, hp, r) ==
@@ -201,11 +201,12 @@ StepPred(name, wp, e, w2, hp, r) ==
     [] name = "P10_Accepted" -> P10_Accepted(wp, e, w2, hp, r) [] name = "P11_ShapeVerdict" -> P11_ShapeVerdict(wp, e, w2, hp, r)
     [] name = "P01_DeliveryNominal" -> P01_DeliveryNominal(wp, e, w2, hp, r)
     [] name = "P04_FlagTakesEffect" -> P04_FlagTakesEffect(wp, e, w2, hp, r)
+    [] name = "P03_Denied" -> P03_Denied(wp, e, w2, hp, r) [] name = "P02_FreshNonce" -> P02_FreshNonce(wp, e, w2, hp, r)
     [] OTHER -> TRUE
 
 Finish(c, r, kind) ==
   LET e == MkEv(c, r, kind)
-      h2 == HistStep(h, w, e) IN
+      h2 == HistT(HistStep(h, w, e), e, r.w) IN
   /\ Bounded(r.w, h2)
   /\ w' = r.w /\ h' = h2 /\ cfg' = cfg
   /\ ev' = [a |-> e.a, fn |-> e.fn, caller |-> e.caller, rcpt |-> e.rcpt, res |-> e.res, sh |-> e.sh, gas |-> e.gas, ct |-> e.ct, mid |-> e.mid, rae |-> e.rae,
@@ -233,7 +234,7 @@ DoDeliver ==
          c == [DeliverCall(m) EXCEPT !.snd = FALSE, !.dst = TRUE] @@ [a |-> "deliver", mid |-> m.id, dup |-> FALSE] IN
      ~r.unk /\ Finish(c, r, "deliver")
 
-Init == cfg = MCCfg /\ w = W0 /\ h = [supply |-> (TokF :> 2), maxn |-> <<>>, made |-> {}, flagged |-> {}] /\ ev = [a |-> "init", fn |-> "", caller |-> "", rcpt |-> "", res |-> "ok", sh |-> 0, gas |-> 0, ct |-> 0, mid |-> -1, rae |-> FALSE, args |-> <<>>] /\ viol = {}
+Init == cfg = MCCfg /\ w = W0 /\ h = [supply |-> (TokF :> 2), tsupply |-> (TokF :> 2), maxn |-> <<>>, made |-> {}, flagged |-> {}] /\ ev = [a |-> "init", fn |-> "", caller |-> "", rcpt |-> "", res |-> "ok", sh |-> 0, gas |-> 0, ct |-> 0, mid |-> -1, rae |-> FALSE, args |-> <<>>] /\ viol = {}
 Next == DoExec \/ DoDeliver \/ DoSched
 Spec == Init /\ [][Next]_vars
 
@@ -241,6 +242,7 @@ Spec == Init /\ [][Next]_vars
 \* invariants
 InvNoViol == viol = {}
 InvConservation == Conservation(w, h)
+InvTransferConservation == TransferConservation(w, h)
 InvNoNegative == NoNegative(w)
 InvWellFormed == WellFormed(w, h)
 InvSysClean == SysClean(w)
